@@ -734,13 +734,30 @@ func rsZk(e *Env) []zkItem {
 			out := decodeInChild(e, crafted)
 			e.In("zkdecode %s", hx(crafted))
 			e.Stat("zkdecode.crafted_len." + out)
-			e.Oracle("zk_proof_decode_bounded", out == "err", "outcome=%s decoding a %d-byte proof whose commitment count field says 2^32-1 (Proof.ReadFrom as in Msg/SubmitValidityProof, child process with 6 GiB address space)", out, len(crafted))
+			e.Oracle("zk_proof_decode_bounded", out == "err", "outcome=%s Msg/SubmitValidityProof with a %d-byte proof whose commitment count field says 2^32-1 (real handler, child process with 6 GiB address space)", out, len(crafted))
 		}
 	}
 	return items
 }
 
 // ---------------------------------------------------------------------------------------------- the real handler
+
+// vpSubmit stores a CHALLENGING item with the given double hashes and sends Msg/SubmitValidityProof from validator 0
+func vpSubmit(c *sim.Chain, uri string, ys [][]byte, idx []int64, proofs [][]byte) string {
+	err, p := c.Call(func(ctx sdk.Context) error {
+		return c.App.DaKeeper.SetPublishedData(ctx, datypes.PublishedData{
+			MetadataUri: uri, ParityShardCount: 1, ShardDoubleHashes: ys, Timestamp: ctx.BlockTime(),
+			Status: datypes.Status_STATUS_CHALLENGING, Publisher: c.Accs[0].Addr.String(), PublishedTimestamp: ctx.BlockTime(),
+		})
+	})
+	if err != nil || p != nil {
+		return fmt.Sprintf("setup-error %v %v", err, p)
+	}
+	val := c.Vals[0].Oper
+	_, err, p = c.Exec(&datypes.MsgSubmitValidityProof{Sender: sdk.AccAddress(val).String(), ValidatorAddress: val.String(),
+		MetadataUri: uri, Indices: idx, Proofs: proofs})
+	return class(err, p)
+}
 
 // rsMsgServer drives Msg/SubmitValidityProof of the real application: a published item in CHALLENGING status whose
 // shard_double_hashes are the items' double hashes, proofs submitted by a bonded genesis validator.
@@ -775,25 +792,17 @@ func rsMsgServer(e *Env, items []zkItem) {
 	submit := func(ys [][]byte, idx []int64, pf []int, tag string) {
 		uriN++
 		uri := fmt.Sprintf("ipfs://rs/%d", uriN)
-		err, p := c.Call(func(ctx sdk.Context) error {
-			return c.App.DaKeeper.SetPublishedData(ctx, datypes.PublishedData{
-				MetadataUri: uri, ParityShardCount: 1, ShardDoubleHashes: ys, Timestamp: ctx.BlockTime(),
-				Status: datypes.Status_STATUS_CHALLENGING, Publisher: c.Accs[0].Addr.String(), PublishedTimestamp: ctx.BlockTime(),
-			})
-		})
-		if err != nil || p != nil {
-			e.Obs("setup-error SetPublishedData %v %v", err, p)
-			return
-		}
 		proofs := make([][]byte, len(pf))
 		ms := make([]string, len(pf))
 		for k, i := range pf {
 			proofs[k] = its[i].proof
 			ms[k] = new(big.Int).SetBytes(its[i].m).String()
 		}
-		_, err, p = c.Exec(&datypes.MsgSubmitValidityProof{Sender: sdk.AccAddress(val).String(), ValidatorAddress: val.String(),
-			MetadataUri: uri, Indices: idx, Proofs: proofs})
-		cls := class(err, p)
+		cls := vpSubmit(c, uri, ys, idx, proofs)
+		if strings.HasPrefix(cls, "setup-error") {
+			e.Obs("%s", cls)
+			return
+		}
 		csv := func(xs []string) string {
 			if len(xs) == 0 {
 				return "-"
@@ -987,11 +996,14 @@ func rsReplay(e *Env) {
 				e.Oracle("assign_distinct_in_range", good, "n=%d t=%d -> %s %v", n, th, cls, out)
 			}
 		case t[0] == "zkdecode" && len(t) == 2:
+			// through the REAL handler: a CHALLENGING item, a bonded validator, the given bytes as the only proof
 			e.In("zkdecode %s", t[1])
-			cls := guard3(func() error {
-				_, err := (&groth16bn254.Proof{}).ReadFrom(bytes.NewReader(unhx(t[1])))
-				return err
-			})
+			c, err := sim.New(sim.DefaultConfig())
+			if err != nil {
+				e.Obs("setup-error %v", err)
+				return
+			}
+			cls := vpSubmit(c, "ipfs://rs/decode", [][]byte{make([]byte, 32)}, []int64{0}, [][]byte{unhx(t[1])})
 			e.Obs("%s", cls)
 		case (t[0] == "zkverify" || t[0] == "zkprove") && len(t) == 4:
 			if z == nil {
